@@ -12,7 +12,7 @@
 #
 # Expected (independent): x guess at the control grid = 2*(t0 + guess*k/N).
 import sys
-sys.path.insert(0, '/tmp/nx_pydeps')   # pure-python networkx needed by SplineMethod
+sys.path.insert(0, '/verif/pydeps')   # pure-python networkx needed by SplineMethod
 import numpy as np
 from rockit import Ocp, SplineMethod, MultipleShooting
 
